@@ -14,8 +14,9 @@ EXTENDS Rational, Sequences, FiniteSets, TLC, Json
 
 CONSTANTS ModelsC
 
-VARIABLES model, pol, cs, bzero, tsp, broad, window
-vars == <<model, pol, cs, bzero, tsp, broad, window>>
+VARIABLES model, pol, cs, bzero, tsp, broad, window,
+          regime     \* Stark only: "doppler" (Stark width a few % of the Doppler width) or "mixed" (comparable widths)
+vars == <<model, pol, cs, bzero, tsp, broad, window, regime>>
 
 Cos2(i) == CASE i = 1 -> <<0, 1>> [] i = 2 -> <<1, 1>> [] i = 3 -> <<1, 2>> [] i = 4 -> <<9, 25>>
 C2 == Cos2(cs)
@@ -70,6 +71,7 @@ Init == /\ model \in ModelsC
         /\ broad \in BOOLEAN                  \* Stark / MSE: electron density and temperature positive
         /\ window \in {"inside", "straddle_low", "straddle_high", "outside", "coarse"}
         /\ (model \notin {"stark", "mse"} => broad)
+        /\ regime \in (IF model = "stark" /\ broad THEN {"doppler", "mixed"} ELSE {"doppler"})
 Next == UNCHANGED vars
 Spec == Init /\ [][Next]_vars
 
@@ -83,6 +85,6 @@ PolarisedShare == (Polarised /\ Components # <<>> /\ pol # "no") =>
 PiPlusSigma == RAdd(PiShare, RMul(R(2), SigmaShare)) = <<1, 1>>
 NoWidthAddsNothing == NoWidth => Components = <<>>
 
-EmitCase == PrintT(ToJson([model |-> model, pol |-> pol, cos2 |-> C2, cs |-> cs, bzero |-> bzero, tsp |-> tsp, broad |-> broad, window |-> window,
+EmitCase == PrintT(ToJson([model |-> model, pol |-> pol, cos2 |-> C2, cs |-> cs, bzero |-> bzero, tsp |-> tsp, broad |-> broad, window |-> window, regime |-> regime,
                            comps |-> Components, total |-> SumW(Components)]))
 =============================================================================
